@@ -20,7 +20,8 @@ import (
 // conditional) the real call next to it. Here a child process executes
 // generated workloads under strace and the sequence of write/fsync/ftruncate
 // system calls per file must equal the sequence of hook events per file.
-// Standard I/O only (mmap stores are not system calls).
+// For the memory-mapped back-end stores are not system calls: there the number of msync calls must equal the
+// number of announced flushes and the ftruncate calls per file must match.
 
 type straceArg struct {
 	Opt kvh.Opt  `json:"options"`
@@ -145,7 +146,7 @@ func straceOne(a *straceArg) (hooks, calls map[string][]ioOp, work string, err e
 		return nil, nil, work, err
 	}
 	tr := filepath.Join(work, "trace.txt")
-	cmd := exec.Command("strace", "-f", "-y", "-s", "0", "-o", tr, "-e", "trace=write,pwrite64,fsync,fdatasync,ftruncate", exe)
+	cmd := exec.Command("strace", "-f", "-y", "-s", "0", "-o", tr, "-e", "trace=write,pwrite64,fsync,fdatasync,ftruncate,msync", exe)
 	cmd.Env = append(os.Environ(), "VERIF_CHILD=c13strace", "VERIF_CHILD_ARG="+work, "VERIF_SCRATCH="+filepath.Join(work, "scratch"), "VERIF_OUT="+filepath.Join(work, "out"))
 	out, err := cmd.CombinedOutput()
 	if err != nil {
@@ -164,10 +165,57 @@ func straceOne(a *straceArg) (hooks, calls map[string][]ioOp, work string, err e
 		return nil, nil, work, err
 	}
 	calls = parseStrace(string(tb), filepath.Join(work, "scratch"))
+	// msync carries no path: under MMap only the number of flushes can be compared
+	n := int64(0)
+	for _, line := range strings.Split(string(tb), "\n") {
+		if msyncLine.MatchString(line) {
+			n++
+		}
+	}
+	calls["<msync>"] = []ioOp{{Kind: "msync-count", N: n}}
 	return hooks, calls, work, nil
 }
 
-func compareIO(hooks, calls map[string][]ioOp) *kvh.Fail {
+var msyncLine = regexp.MustCompile(`^\d+\s+msync\(`)
+
+func compareIO(hooks, calls map[string][]ioOp, mmap bool) *kvh.Fail {
+	msyncs := int64(0)
+	if l := calls["<msync>"]; len(l) == 1 {
+		msyncs = l[0].N
+	}
+	delete(calls, "<msync>")
+	if mmap {
+		// memory-mapped back-end: stores are not system calls; compare the flush count and the truncations per file
+		syncs := int64(0)
+		ht, ct := map[string][]ioOp{}, map[string][]ioOp{}
+		for p, l := range hooks {
+			for _, o := range l {
+				switch o.Kind {
+				case "sync":
+					syncs++
+				case "truncate":
+					ht[p] = append(ht[p], o)
+				}
+			}
+		}
+		for p, l := range calls {
+			for _, o := range l {
+				switch o.Kind {
+				case "truncate":
+					ct[p] = append(ct[p], o)
+				case "sync":
+					msyncs++ // the merge-finished marker is always read through the standard back-end: its Close fsyncs
+				}
+			}
+		}
+		if syncs > msyncs {
+			return &kvh.Fail{Sig: "io-announced-but-not-performed", Msg: fmt.Sprintf("memory-mapped back-end: the engine announced %d flushes but issued only %d msync/fsync system calls", syncs, msyncs)}
+		}
+		if syncs < msyncs {
+			return &kvh.Fail{Sig: "harness-unhooked-io", Msg: fmt.Sprintf("memory-mapped back-end: %d msync/fsync calls but only %d hook events", msyncs, syncs)}
+		}
+		hooks, calls = ht, ct
+	}
 	paths := map[string]bool{}
 	for p := range hooks {
 		paths[p] = true
@@ -215,7 +263,7 @@ var c13StraceProfile = &kvh.GenProfile{
 	MaxBatchOps: 4,
 	Big:         false,
 	ReopenSame:  true,
-	OptProfile:  kvh.OptProfile{NoMMap: true, FileSizes: []int64{200, 1000, 4096, 1 << 20}},
+	OptProfile:  kvh.OptProfile{MMapPercent: 35, FileSizes: []int64{200, 1000, 4096, 1 << 20}},
 }
 
 // c13Fidelity runs n generated workloads under strace.
@@ -250,7 +298,7 @@ func c13Fidelity(t *testing.T, st *kvh.Stats, n int) {
 			t.Logf("strace pass inconclusive: %v", err)
 			return
 		}
-		if f := compareIO(hooks, calls); f != nil {
+		if f := compareIO(hooks, calls, a.Opt.IO == 1); f != nil {
 			if strings.HasPrefix(f.Sig, "harness") {
 				st.Label("strace-" + f.Sig)
 				t.Logf("strace pass: %s", f.Msg)
@@ -279,6 +327,6 @@ func init() {
 		if err != nil {
 			return &kvh.Fail{Sig: "harness-strace", Msg: err.Error()}
 		}
-		return compareIO(hooks, calls)
+		return compareIO(hooks, calls, c.Opt.IO == 1)
 	}
 }
